@@ -10,7 +10,7 @@
     CS    := N (min n | max n | eq n | custom 0|1 | overwrite)…
     NODE  := slice MODS TY elem CS | array MODS N items… REST CS | tuple MODS N items… req REST CS
            | map MODS OPT OPT CS | record MODS KS val loose partial CS | set MODS TY elem CS
-           | object MODS N (name m opt exopt)… MODE OPT PART CS | struct MODS ptrC sid N (name m opt exopt)…
+           | object MODS N (name m opt exopt)… MODE OPT PART [req all | req N ids…] CS | struct MODS ptrC sid N (name m opt exopt)…
            | union MODS N ids… | xor MODS N ids… | inter MODS l r | du MODS disc N (m K val…)… | lazy MODS direct t
              (du: the option LIST with the discriminator values each option declares; the index is built by
               `Cont.buildDiscMap`, `Case.du` keeps the declaration)
@@ -18,6 +18,7 @@
     ISSUE := code N seg… N keys… expLazy hasMsg hasPath        seg := i<n> | k<n>
 -/
 import Gozod.Model.Containers
+import Gozod.Model.ContainersSpec
 namespace Gozod.Drv.ContParse
 open Gozod.Cont
 
@@ -89,6 +90,9 @@ def cfgBits (t : String) : Option Cfg :=
   | [a, b, c, d, e] =>
     some { slicePrepend := a == '1', recordKeyPath := b == '1', interPath := c == '1', lazyWrap := d == '1',
            owValidates := e == '1' }
+  | [a, b, c, d, e, f] =>
+    some { slicePrepend := a == '1', recordKeyPath := b == '1', interPath := c == '1', lazyWrap := d == '1',
+           owValidates := e == '1', reqFix := f == '1' }
   | _ => none
 
 def natList (s : String) : Option (List Nat) :=
@@ -154,7 +158,15 @@ def duDecl : List String → Option (Mods × Nat × List DUOpt)
     some (m, d, os)
   | _ => none
 
-def node : P Node
+/-- the optional `req all` / `req N ids…` after PART: the written `.Required(...)` call on the object. -/
+def reqCall : P (Option ReqCall)
+  | "req" :: "all" :: ts => some (some .all, ts)
+  | "req" :: ts => do let (ks, ts) ← counted nat ts; some (some (.keys ks), ts)
+  | ts => some (none, ts)
+
+/-- `node cfg doc`: the node as the tree under test builds it (`doc = false`: `Cont.applyRequired cfg`) or as documented
+    (`doc = true`: `Spec.requiredDoc`); they differ only for an object with a `.Required(...)` call. -/
+def node (cfg : Cfg) (doc : Bool) : P Node
   | "slice" :: ts => do
     let (m, ts) ← mods ts; let (t, ts) ← ty ts; let (e, ts) ← nat ts; let (cs, ts) ← counted sizeCk ts
     some (.slice m t e cs, ts)
@@ -177,7 +189,8 @@ def node : P Node
     some (.set m t e cs, ts)
   | "object" :: ts => do
     let (m, ts) ← mods ts; let (sh, ts) ← counted field ts; let (md, ts) ← mode ts; let (c, ts) ← opt ts
-    let (p, ts) ← part ts; let (cs, ts) ← counted sizeCk ts
+    let (p, ts) ← part ts; let (rq, ts) ← reqCall ts; let (cs, ts) ← counted sizeCk ts
+    let (sh, p) := if doc then Spec.requiredDoc rq sh p else applyRequired cfg rq sh p
     some (.object m sh md c p cs, ts)
   | "struct" :: ts => do
     let (m, ts) ← mods ts; let (pc, ts) ← bit ts; let (sid, ts) ← nat ts; let (sh, ts) ← counted field ts
@@ -251,15 +264,18 @@ structure Case where
   own : Env            -- the members' own verdicts (what the property speaks about)
   skip : List Nat
   du : Option (Mods × Nat × List DUOpt) := none   -- a discriminated union's option list as written
+  hasReq : Bool := false                          -- the object carries a written `.Required(...)` call
   rest : List String
 
 def parseCase (ts : List String) : Option Case := do
   let ((c, sk), ts) ← cfg ts
   let du := duDecl ts
-  let (n, ts) ← node ts
+  let hasReq := ts.head? == some "object" && ts.contains "req"
+  let (w, _) ← node c true ts
+  let (n, ts) ← node c false ts
   let (v, ts) ← val ts
   let (tbl, ts) ← counted entry ts
-  some { cfg := c, node := built sk n, written := n, input := v, env := seen sk (envOf tbl), own := envOf tbl, skip := sk, du := du, rest := ts }
+  some { cfg := c, node := built sk n, written := w, input := v, env := seen sk (envOf tbl), own := envOf tbl, skip := sk, du := du, hasReq := hasReq, rest := ts }
 
 /-! rendering of path sets -/
 
